@@ -100,6 +100,11 @@ def build_tree_subject(r):
     ns = build_ns(nl, extra=r.get("nsx", 0), deco=r.get("deco", 0))
     lengths = length_patterns()[r.get("len", "none")]
     t = build_tree(shape, ns=ns, leaf_taxa=list(ns._taxa)[:nl], lengths=lengths, rooted=r.get("rooted"), internal_labels=True)
+    if r.get("itax"):
+        # a taxon of the namespace on an internal node (trees read with suppress_internal_node_taxa=False look like this)
+        inner = [n for n in C._pre(t._seed_node) if n._child_nodes and n is not t._seed_node] + [t._seed_node]
+        for n, tx in zip(inner[:1], list(ns._taxa)[nl:nl + 1]):
+            n.taxon = tx
     deco = r.get("deco", 0)
     if deco:
         t.label = "tree"
@@ -568,7 +573,7 @@ def job_key(job):
     k = r["kind"]
     if k == "tree":
         body = "shape=%s|len=%s|rooted=%s|deco=%d|enc=%d|nsx=%d" % (shape_str(tup(r["shape"])), r.get("len", "none"), r.get("rooted"),
-                                                                    r.get("deco", 0), int(bool(r.get("enc"))), r.get("nsx", 0))
+                                                                    r.get("deco", 0), int(bool(r.get("enc"))), r.get("nsx", 0)) + ("|itax" if r.get("itax") else "")
     elif k == "treelist":
         body = "shapes=[%s]|deco=%d|enc=%d|nsx=%d" % (" ".join(shape_str(tup(s)) for s in r["shapes"]), r.get("deco", 0), int(bool(r.get("enc"))), r.get("nsx", 0))
     elif k == "matrix":
@@ -761,7 +766,8 @@ def jobs_trees(tier):
         for pat in pats:
             for deco, enc in ((0, 0), (2, 0), (0, 1), (2, 1), (1, 0)):
                 k += 1
-                recipe = {"kind": "tree", "shape": s, "len": pat, "rooted": rootings[k % 3], "deco": deco, "enc": enc, "nsx": (k // 3) % 3}
+                recipe = {"kind": "tree", "shape": s, "len": pat, "rooted": rootings[k % 3], "deco": deco, "enc": enc, "nsx": (k // 3) % 3,
+                          "itax": (k // 3) % 3 == 2 and k % 2 == 0}
                 if tier != "quick":
                     variants = [dict(recipe, rooted=r) for r in rootings]
                 else:
